@@ -35,7 +35,9 @@ CHECKS = {
             "model_checking",
             "Each case is re-run under up to 5 clause permutations (query clause last), with one clause duplicated, and twice on an "
             "engine that executed other programs before; accepted iff all answers agree and the stored base facts of every "
-            "EDB relation are unchanged after every execution.",
+            "EDB relation are unchanged after every execution. The oracle's own order independence (and that its model is a "
+            "supported model, monotone without negation) is model-checked exhaustively over 51072 (program, database) pairs "
+            "(MC_Datalog.tla) in the same check.",
             "Only relations that existed before the execution are compared for 'base facts unchanged'. " + TB, "7 C04"),
     "C05": ("plan", "plan trees before / after every real rewrite pass evaluated by TLC with Plan.tla (Eval) and compared with each "
             "other and with the real executor (PlanTrace.tla)",
@@ -134,7 +136,10 @@ CHECKS = {
             "the served state is the result of a serial order of the acknowledged operations consistent with the call/return order "
             "(Serializable), every crash image (copy of the data directory while all threads are parked: end of run + 2 random steps, "
             "thorough: every step) reopens to a state containing every operation acknowledged before it under some serial order of "
-            "acknowledged + in-flight operations (Durable), and the final image recovers exactly the served state.",
+            "acknowledged + in-flight operations (Durable), and the final image recovers exactly the served state. In addition "
+            "Persist.tla (the write-ahead protocol, one action per critical section) is model-checked (Durable holds; the pinned "
+            "two-critical-section variant is an expected violation) and the scheduling-point log of every insert-only run is "
+            "validated as a behaviour of it (PersistTrace.tla): each image's real recovery must equal Persist!Recovered.",
             "Interleavings at the granularity of the scheduling points only (not every instruction); crash images are plain copies "
             "(no torn-write model here; that is C13). 2-3 threads, one operation each (two for the dropper). " + TB, "7 C15"),
     "C18": ("incr", "TLC-enumerated histories (MC_Incr.tla, laws of Incr.tla model-checked) run twice on the real Handler (incremental "
